@@ -203,6 +203,15 @@ def prove_reply(src_root, ex: Explorer):
                   has_slots_free=True, avg_speed=1, queue_size=0, results=['item'], locked_results=None)
         disc = []
         conn = Stub('connection', disconnect=Recorder('disconnect', fn=lambda it2, a, k: disc.append(k), is_async=True))
+        # suspension points between the moment the registry is consulted and the moment the result is handed to the listeners
+        window = []
+
+        def on_yield(it2, label):
+            consulted = bool(reqs.entries)
+            reported = any(ev_name(e) == 'SearchResultEvent' for e in emitted)
+            if consulted and not reported and label != 'emit':
+                window.append(label)
+        it.aio.on_yield = on_yield
         try:
             run(it, it.getattr(mgr, '_on_peer_search_reply'), msg, conn)
         except PyRaise as pr:
@@ -218,6 +227,9 @@ def prove_reply(src_root, ex: Explorer):
             ok = len(results) == 1 and results[0].attrs.get('query') is req and \
                 unbox(results[0].attrs['result'].attrs['ticket']) is unbox(msg.attrs['ticket'])
             ctx.prove(f'C18.reply.iff[{tag}]', ok, f'events {[ev_name(e) for e in emitted]}')
+            ctx.prove('C18.reply.atomic-with-lookup', not window,
+                      f'the handler suspends on {window} between looking the ticket up and reporting the result: the request can be removed '
+                      'or time out in between and the result is still reported')
             stored = len(req.attrs['results'])
             st = it.truth(mgr.attrs['_settings'].attrs['searches'].attrs['send'].attrs['store_results'])
             ctx.prove(f'C18.reply.stored-iff-setting[{tag}]', z3.BoolVal(stored == 1) == (st if not isinstance(st, bool) else z3.BoolVal(st)))
@@ -424,8 +436,58 @@ def prove_timer(src_root, ex: Explorer):
     ex.run(runner, 'timer-runner')
 
 
+def prove_wishlist(src_root, ex: Explorer):
+    """_wishlist_job, loop contract (one ARBITRARY enabled item): a fresh ticket, one WishlistSearch with it, the request registered under it,
+    and - when a time-out is configured - a started timer whose callback expires THIS request.  The callback is invoked after every
+    variable assigned in the loop body has been overwritten (as the next iterations do), so a closure that reads the loop variable late
+    is caught."""
+    def path(ctx: Ctx):
+        it = mk(src_root, ctx)
+        install_env(it, ctx)
+        mgr, emitted, sent, reqs, tickets = mk_manager(it, ctx)
+        it.natives['builtins.filter'] = Native('builtins.filter', lambda it2, a, k: [x for x in it2.iterate(a[1]) if it2.truth(it2.call(a[0], [x], {})) is True])
+        has_timeout = ctx.choose(2, 'timeout-configured') == 1
+        it.hooks[f'{SM}:SearchManager._get_wishlist_request_timeout'] = lambda it2, f, a, k: 30 if has_timeout else 0
+        started, expired = [], []
+        it.hooks[f'{TASKS}:Timer.start'] = lambda it2, f, a, k: started.append(a[0])
+        it.hooks[f'{SM}:SearchManager._timeout_search_request'] = lambda it2, f, a, k: A.SimpleAwaitable(it2.aio, 'expire', lambda it3: expired.append(a[1]))
+        item = Stub('wishlist item', query=Sym(ctx.fresh_str('query'), 'str'), enabled=True)
+        seen = []
+
+        def loop(it2, node, env):
+            before = set(env.vars)
+            it2.assign(node.target, item, env)
+            it2.exec_block(node.body, env)
+            seen.append(env.vars.get('request'))
+            # the following iterations rebind everything the body assigned
+            for k in list(env.vars):
+                if k not in before or k == getattr(node.target, 'id', None):
+                    env.vars[k] = Stub(f'value of a later iteration ({k})', query='later', timer=None, ticket=-1)
+        it.loop_specs[(f'{SM}:SearchManager._wishlist_job', 0)] = loop
+        run(it, it.getattr(mgr, '_wishlist_job'))
+        req = seen[0] if seen else None
+        ok = isinstance(req, Obj) and req.cls.name == 'SearchRequest' and len(tickets) == 1
+        ctx.prove('C18.wishlist.one-request', ok)
+        if not ok:
+            return
+        regs = [l for l in reqs.log if l[0] == 'set']
+        ctx.prove('C18.wishlist.registers', len(regs) == 1 and regs[0][2] is req and ctx.valid(z3int(regs[0][1]) == tickets[0]) and ctx.valid(z3int(req.attrs['ticket']) == tickets[0])
+                  and len(sent) == 1 and sent[0][0].cls.qual == 'WishlistSearch.Request' and ctx.valid(z3int(sent[0][0].attrs['ticket']) == tickets[0]),
+                  'the request must be registered under the ticket that was sent')
+        timer = req.attrs.get('timer')
+        ctx.prove('C18.wishlist.timer-iff-configured', (timer is not None) == has_timeout and started == ([timer] if has_timeout else []))
+        if timer is not None:
+            cb = timer.attrs['callback']
+            r = it.call(cb, [], {})
+            if hasattr(r, 'pyvc_await') or isinstance(r, A.SimpleAwaitable):
+                it.await_value(r)
+            ctx.prove('C18.wishlist.timer-expires-own-request', expired == [req],
+                      f'the timer of a wishlist request expires {expired!r} instead of its own request (late binding of the loop variable?)')
+    ex.run(path, 'wishlist')
+
+
 def items(src_root, tier):
-    return [('tickets', None), ('writers', None), ('reply', None), ('attach', None), ('searches', None), ('timeout', None), ('timer', None)]
+    return [('tickets', None), ('writers', None), ('reply', None), ('attach', None), ('searches', None), ('timeout', None), ('timer', None), ('wishlist', None)]
 
 
 def run_item(src_root, item, tier):
@@ -434,7 +496,7 @@ def run_item(src_root, item, tier):
     kind, arg = item
     try:
         {'tickets': prove_ticket_generator, 'reply': prove_reply, 'attach': prove_attach, 'searches': prove_searches,
-         'timeout': prove_timeout_and_remove, 'timer': prove_timer,
+         'timeout': prove_timeout_and_remove, 'timer': prove_timer, 'wishlist': prove_wishlist,
          'writers': lambda s, e: scan_request_writers(s, e, res)}[kind](src_root, ex)
     except Unsupported as e:
         res.errors.append(f'{kind}: unsupported: {e}')
@@ -444,5 +506,5 @@ def run_item(src_root, item, tier):
                           f'{SM}:SearchManager.search_room', f'{SM}:SearchManager.search_user',
                           f'{SM}:SearchManager._attach_request_timer_and_emit', f'{SM}:SearchManager._timeout_search_request',
                           f'{SM}:SearchManager.remove_request', f'{SM}:SearchManager._on_peer_search_reply',
-                          f'{SM}:SearchManager._get_wishlist_request_timeout'])
+                          f'{SM}:SearchManager._get_wishlist_request_timeout', f'{SM}:SearchManager._wishlist_job'])
     return res
